@@ -117,8 +117,10 @@ def gen_oracle_case(ctx, dspecs, backends=("cbc", "glpk"), families=None):
         cspec = cases.gen_continuum(rng, n_annot=n, sizes=[ORACLE_MAX_UNITS[n] if n > 3 else 8] * n,
                                     labels=labels or cases.LABELS_SMALL, family="dense")
     else:
+        # unlabelled units (next to labelled ones) in a quarter of the cases whose dissimilarity needs no label
+        p_none = rng.choice([0.3, 0.6, 1.0]) if (labels is None and rng.random() < 0.25) else 0.0
         cspec = cases.gen_continuum(rng, n_annot=n, max_units=mx if rng.random() < 0.6 else rng.randint(1, mx),
-                                    labels=labels or cases.LABELS_SMALL, min_total=2, family=fam)
+                                    labels=(labels or rng.choice([cases.LABELS_SMALL, ["a"], cases.LABELS_WORDS[:5]])), min_total=2, family=fam, p_none=p_none)
     return {"continuum": cspec, "dissim": dspec, "backend": rng.choice(list(backends))}
 
 
